@@ -34,4 +34,4 @@ For each mutation i = 1..{n}:
  2. write a demonstration — a small Go test file (new file, e.g. zz_demo_test.go in the relevant package) or small program — that FAILS with the change and PASSES without it, demonstrating a concrete violation of the property as stated above (not merely 'output changed');
  3. save into {OUT}/m<i>/ : `patch.diff` (output of `git diff` of the source change ONLY, without the demo), the demo file(s) with a note of the path where it must be placed, and `meta.json` with fields: property, summary (what was changed), needs (what it needs in order to manifest), demo_cmd (exact command to run the demo), files_changed;
  4. verify the claim end to end once more from clean: apply patch → suite passes, demo fails; revert patch → demo passes. Then clean the worktree again.
-Finally reply with a short list: for each mutation its directory, one-line summary, and what it needs to manifest. Do not leave the worktree modified.""")
+Finally reply with a short list: for each mutation its directory, one-line summary, and what it needs to manifest. Do not leave the worktree modified. NEVER use `git stash` (the stash is shared between all worktrees of this repository and other agents are working in sibling worktrees): to toggle a change use `git diff > p.diff`, `git apply -R p.diff`, `git apply p.diff`.""")
